@@ -15,12 +15,24 @@ namespace Martian.Props.C04
 open Martian Skel
 open Martian.Generated.Proxy (connectBlind connect)
 
+/-- The 200 is written and flushed, then both copies are started (each exactly once, in either
+order), then the handler returns `errClose`; the target connection is closed by the deferred
+`Close` only. (Order of the two `go` statements, names of temporaries and the spelling of the
+`closeWrite` helper are not pinned.) -/
 theorem facts_tunnel_pumps :
-    hasBlock ["set res.ContentLength = -1", "call res.Write", "call brw.Flush",
-              "func closeWrite {", "if cw, ok := c.(interface{ CloseWrite() error }); ok {", "call cw.CloseWrite", "}", "}",
-              "func copySync {", "call io.Copy", "call closeWrite", "}",
-              "go copySync(cconn, brw, cconn, donec)", "go copySync(conn, cconn, conn, donec)", "return errClose"] connectBlind = true ∧
+    hasSeq ["set res.ContentLength = -1", "call res.Write", "call brw.Flush",
+            "go copySync(cconn, brw, cconn, donec)", "return errClose"] connectBlind = true ∧
+    hasSeq ["set res.ContentLength = -1", "call res.Write", "call brw.Flush",
+            "go copySync(conn, cconn, conn, donec)", "return errClose"] connectBlind = true ∧
+    count "go copySync(cconn, brw, cconn, donec)" connectBlind = 1 ∧
+    count "go copySync(conn, cconn, conn, donec)" connectBlind = 1 ∧
     count "defer cconn.Close" connectBlind = 1 ∧ count "call cconn.Close" connectBlind = 0 := by
+  decide
+
+/-- The `closeWrite` helper half-closes: its body calls a method named `CloseWrite` (behind a type
+assertion) and no `Close`. -/
+theorem facts_closeWrite_half_closes :
+    Martian.Generated.Tunnel.closeWriteCalls = ["CloseWrite"] := by
   decide
 
 theorem facts_downstream_read_ahead_handed_over :
